@@ -31,7 +31,7 @@ def make_schema(mark_specs: dict, some_marks: str | None):
 
 def gen_mark_specs(rng: random.Random, k: int):
     names = [f"m{i}" for i in range(k)]
-    groups = ["g1", "g2"]
+    groups = ["g1", "g2", "g", "fmt", "nofmt"]   # includes names that are substrings of each other
     specs = {}
     for n in names:
         sp = {}
@@ -47,7 +47,7 @@ def gen_mark_specs(rng: random.Random, k: int):
             sub = [x for x in pool if rng.random() < 0.4]
             sp["excludes"] = " ".join(sub)   # may be "" again
         if rng.random() < 0.4:
-            sp["group"] = " ".join(rng.sample(groups, rng.randint(1, 2)))
+            sp["group"] = " ".join(rng.sample(groups, rng.randint(1, 3)))
         if rng.random() < 0.4:
             sp["attrs"] = {"v": {"default": 0}}
         if rng.random() < 0.3:
@@ -61,7 +61,7 @@ def try_schema(rng, k):
     for _ in range(50):
         specs = gen_mark_specs(rng, k)
         names = list(specs)
-        some = rng.choice([None, names[0], " ".join(rng.sample(names, rng.randint(1, len(names)))), "g1", "g1 " + names[-1]])
+        some = rng.choice([None, names[0], " ".join(rng.sample(names, rng.randint(1, len(names)))), "g1", "g1 " + names[-1], "g", "fmt", "fmt " + names[0]])
         try:
             return make_schema(specs, some), specs
         except SyntaxError:
